@@ -376,6 +376,7 @@ impl Check for C12 {
             max_entries,
             ENTRIES.len()
         );
+        ctx.rule.push_str("; `op=` with the operands 0, 1, -1, \"\", [], {}, a variable and null on missing, null and ill-typed properties (5 operators, 10 targets); loops whose body writes to the object they walk (6 shapes)");
         let mut g_order = false;
         let stats = bfs(
             ctx,
